@@ -560,4 +560,7 @@ def run(P, R, tier):
     # merges "iauth" with "iauth_class"
     from . import c19 as _c19
     _c19.string_comparators_reach_the_end(P, R, 'C18.TAB.9')
+    # the logs section is read, not edited, by the code that routes by it
+    from . import c14 as _c14o
+    _c14o.node_texts_read_only(P, R, 'C18.OWN.1')
     return EXPLANATION, ASSUMPTIONS
